@@ -150,6 +150,20 @@ theorem cc_sign_zhang_def {P : AMat ℚ n} (h01 : In01 P) (hD : EmptyDiag P) (i 
   ⟨by rw [zhangCore_get]; exact zhang_def h01 hD i, fun h =>
     lt_of_lt_of_le (lt_of_le_of_ne (zhang_num_nonneg h01 i) (Ne.symm h)) (zhang_num_le h01 hD i)⟩
 
+/-- the same composed with the routine: `clustering_coef_wu_sign(W, 'zhang')` on the two sign parts of `W`
+(diagonal zeroed as the code does), signed weights in [-1,1] -/
+theorem cc_sign_zhang_def_W {W : AMat ℚ n} (h : InPm1 W) (i : Fin n) :
+    (ccSignZhang W).1[i] = some
+      ((∑ j, ∑ q, (posPartK (zeroDiagK W)).get j i * (posPartK (zeroDiagK W)).get i q * (posPartK (zeroDiagK W)).get j q) /
+       (∑ j, ∑ q, if j = q then 0 else (posPartK (zeroDiagK W)).get j i * (posPartK (zeroDiagK W)).get i q)) ∧
+    (ccSignZhang W).2[i] = some
+      ((∑ j, ∑ q, (negPartK (zeroDiagK W)).get j i * (negPartK (zeroDiagK W)).get i q * (negPartK (zeroDiagK W)).get j q) /
+       (∑ j, ∑ q, if j = q then 0 else (negPartK (zeroDiagK W)).get j i * (negPartK (zeroDiagK W)).get i q)) := by
+  obtain ⟨e1, e2⟩ := signParts_eq W
+  simp only [ccSignZhang, zhangCore_get, e1, e2]
+  exact ⟨zhang_def (posPart_in01 (zeroDiag_pm1 h)) (posPart_emptyDiag (zeroDiag_emptyDiag W)) i,
+    zhang_def (negPart_in01 (zeroDiag_pm1 h)) (negPart_emptyDiag (zeroDiag_emptyDiag W)) i⟩
+
 /-- the Costantini–Perugini triple loop (model) -/
 theorem cc_sign_cost_def {W : AMat ℚ n} (h : InPm1 W) (i : Fin n) :
     (ccSignCost W)[i] = some
@@ -483,6 +497,7 @@ example : (ccSignDefault N3 Z3 R3).2[(0 : Fin 3)] = some (1/8) := by
 example : (zhangCore W3)[(0 : Fin 3)] = some (1/8) := by
   rw [(cc_sign_zhang_def W3_in01 W3_diag 0).1]
   simp +decide [W3, Fin.sum_univ_three] <;> norm_num
+example : ∃ c, (ccSignZhang N3).2[(0 : Fin 3)] = some c := ⟨_, (cc_sign_zhang_def_W N3_pm1 0).2⟩
 example : (ccSignCost N3)[(0 : Fin 3)] = some (-1/8) := by
   rw [cc_sign_cost_def N3_pm1]
   simp +decide [N3, Fin.sum_univ_three, abs_of_nonneg] <;> norm_num
